@@ -11,7 +11,7 @@
 *)
 From RV Require Import Model.Base Model.Spirv Model.Grammar Model.Reflect Model.Module Model.Inst Model.Parser Model.Loader.
 From RV Require Import Spec.Layout.
-From RV Require Import Gen.TraverseData Inst.C15_inst.
+From RV Require Import Gen.TraverseData Inst.C15_inst Inst.Run.
 From Coq Require Import Permutation.
 
 Local Arguments b_label {I}. Local Arguments b_insts {I}.
@@ -47,9 +47,12 @@ Proof.
   rewrite module_all_iter, module_assemble, all_insts_is_spec_all. split; reflexivity.
 Qed.
 
-(** [Run.assemble_module h m] is by definition
-      header ++ flat_map asm_inst (eval c15_fuel defs (VMod m) (TCall "assemble_into"));
-    (Inst/Run.v is not imported here: it drags in the generated tables) *)
+(** [Run.assemble_module]: the header, then every instruction of [all_insts] *)
+Theorem assemble_module_is_all_insts h m :
+  assemble_module h m
+  = match h with Some hd => asm_header hd | None => [] end ++ flat_map asm_inst (all_insts m).
+Proof. unfold assemble_module. rewrite module_assemble, all_insts_is_spec_all. reflexivity. Qed.
+
 Theorem assemble_body_is_all_insts (hd : list N) m :
   hd ++ flat_map asm_inst (eval c15_fuel defs (VMod m) (TCall "assemble_into"))
   = hd ++ flat_map asm_inst (all_insts m).
@@ -373,10 +376,21 @@ Example two_memory_models_lose_the_first :
             /\ all_insts (l_module s) = [ex_inst 14 2].
 Proof. eexists. split; vm_compute; reflexivity. Qed.
 
+Example two_memory_models_not_a_permutation :
+  exists s, spec_load [(TMemoryModel, ex_inst 14 1); (TMemoryModel, ex_inst 14 2)] = LCont s
+            /\ ~ Permutation (all_insts (l_module s)) [ex_inst 14 1; ex_inst 14 2].
+Proof.
+  eexists. split; [vm_compute; reflexivity|]. intros P. apply Permutation_length in P. discriminate P.
+Qed.
+
 (** * A3: a layout-ordered instruction sequence is reproduced exactly *)
 From Coq Require Import Sorted.
 
-(** the section rank of a token, given whether a function is open *)
+(** the section rank of a token, given whether a function is open: a TModule
+    token has the rank of its section and TMemoryModel rank 3 wherever they
+    occur (see [module_token_inside_function_is_hoisted] at the end); OpLine /
+    OpVariable / OpUndef have rank 10 outside functions; everything else, and
+    everything else between TFunction and TFunctionEnd, has rank 11 *)
 Definition rank (fn : bool) (t : token) : N :=
   match t with
   | TModule sec => sec
@@ -863,3 +877,557 @@ Proof.
   split; [apply (A 6); lia|]. split; [apply (A 7); lia|]. split; [apply (A 8); lia|].
   split; [apply (A 9); lia|]. apply (A 10); lia.
 Qed.
+
+(** * A4: loading the traversal of a loaded module again gives the same module *)
+
+(** closed form of repeatedly pushing into section [k] *)
+Definition app_section (m : module inst) (k : N) (xs : list inst) : module inst :=
+  match k with
+  | 0 => {| m_caps := m_caps m ++ xs; m_exts := m_exts m; m_imports := m_imports m; m_memory_model := m_memory_model m; m_entry_points := m_entry_points m; m_exec_modes := m_exec_modes m; m_debug_string_source := m_debug_string_source m; m_debug_names := m_debug_names m; m_debug_module_processed := m_debug_module_processed m; m_annotations := m_annotations m; m_types_global_values := m_types_global_values m; m_functions := m_functions m |}
+  | 1 => {| m_caps := m_caps m; m_exts := m_exts m ++ xs; m_imports := m_imports m; m_memory_model := m_memory_model m; m_entry_points := m_entry_points m; m_exec_modes := m_exec_modes m; m_debug_string_source := m_debug_string_source m; m_debug_names := m_debug_names m; m_debug_module_processed := m_debug_module_processed m; m_annotations := m_annotations m; m_types_global_values := m_types_global_values m; m_functions := m_functions m |}
+  | 2 => {| m_caps := m_caps m; m_exts := m_exts m; m_imports := m_imports m ++ xs; m_memory_model := m_memory_model m; m_entry_points := m_entry_points m; m_exec_modes := m_exec_modes m; m_debug_string_source := m_debug_string_source m; m_debug_names := m_debug_names m; m_debug_module_processed := m_debug_module_processed m; m_annotations := m_annotations m; m_types_global_values := m_types_global_values m; m_functions := m_functions m |}
+  | 4 => {| m_caps := m_caps m; m_exts := m_exts m; m_imports := m_imports m; m_memory_model := m_memory_model m; m_entry_points := m_entry_points m ++ xs; m_exec_modes := m_exec_modes m; m_debug_string_source := m_debug_string_source m; m_debug_names := m_debug_names m; m_debug_module_processed := m_debug_module_processed m; m_annotations := m_annotations m; m_types_global_values := m_types_global_values m; m_functions := m_functions m |}
+  | 5 => {| m_caps := m_caps m; m_exts := m_exts m; m_imports := m_imports m; m_memory_model := m_memory_model m; m_entry_points := m_entry_points m; m_exec_modes := m_exec_modes m ++ xs; m_debug_string_source := m_debug_string_source m; m_debug_names := m_debug_names m; m_debug_module_processed := m_debug_module_processed m; m_annotations := m_annotations m; m_types_global_values := m_types_global_values m; m_functions := m_functions m |}
+  | 6 => {| m_caps := m_caps m; m_exts := m_exts m; m_imports := m_imports m; m_memory_model := m_memory_model m; m_entry_points := m_entry_points m; m_exec_modes := m_exec_modes m; m_debug_string_source := m_debug_string_source m ++ xs; m_debug_names := m_debug_names m; m_debug_module_processed := m_debug_module_processed m; m_annotations := m_annotations m; m_types_global_values := m_types_global_values m; m_functions := m_functions m |}
+  | 7 => {| m_caps := m_caps m; m_exts := m_exts m; m_imports := m_imports m; m_memory_model := m_memory_model m; m_entry_points := m_entry_points m; m_exec_modes := m_exec_modes m; m_debug_string_source := m_debug_string_source m; m_debug_names := m_debug_names m ++ xs; m_debug_module_processed := m_debug_module_processed m; m_annotations := m_annotations m; m_types_global_values := m_types_global_values m; m_functions := m_functions m |}
+  | 8 => {| m_caps := m_caps m; m_exts := m_exts m; m_imports := m_imports m; m_memory_model := m_memory_model m; m_entry_points := m_entry_points m; m_exec_modes := m_exec_modes m; m_debug_string_source := m_debug_string_source m; m_debug_names := m_debug_names m; m_debug_module_processed := m_debug_module_processed m ++ xs; m_annotations := m_annotations m; m_types_global_values := m_types_global_values m; m_functions := m_functions m |}
+  | 9 => {| m_caps := m_caps m; m_exts := m_exts m; m_imports := m_imports m; m_memory_model := m_memory_model m; m_entry_points := m_entry_points m; m_exec_modes := m_exec_modes m; m_debug_string_source := m_debug_string_source m; m_debug_names := m_debug_names m; m_debug_module_processed := m_debug_module_processed m; m_annotations := m_annotations m ++ xs; m_types_global_values := m_types_global_values m; m_functions := m_functions m |}
+  | 10 => {| m_caps := m_caps m; m_exts := m_exts m; m_imports := m_imports m; m_memory_model := m_memory_model m; m_entry_points := m_entry_points m; m_exec_modes := m_exec_modes m; m_debug_string_source := m_debug_string_source m; m_debug_names := m_debug_names m; m_debug_module_processed := m_debug_module_processed m; m_annotations := m_annotations m; m_types_global_values := m_types_global_values m ++ xs; m_functions := m_functions m |}
+  | _ => m
+  end.
+
+Ltac mfields := cbn [m_caps m_exts m_imports m_memory_model m_entry_points m_exec_modes
+    m_debug_string_source m_debug_names m_debug_module_processed m_annotations m_types_global_values m_functions].
+
+Ltac mfields_all := cbn [m_caps m_exts m_imports m_memory_model m_entry_points m_exec_modes
+    m_debug_string_source m_debug_names m_debug_module_processed m_annotations m_types_global_values m_functions] in *.
+
+Lemma push_app_section m k x : k <= 10 -> k <> 3 -> push_section m k x = Some (app_section m k [x]).
+Proof. intros H1 H2. destruct_N k; try lia; reflexivity. Qed.
+
+Lemma app_section_app m k a b : app_section (app_section m k a) k b = app_section m k (a ++ b).
+Proof. destruct_N k; try reflexivity; cbn [app_section]; mfields; rewrite <- app_assoc; reflexivity. Qed.
+
+Definition add_fns (m : module inst) (fs : list (func inst)) : module inst :=
+  {| m_caps := m_caps m; m_exts := m_exts m; m_imports := m_imports m;
+     m_memory_model := m_memory_model m; m_entry_points := m_entry_points m;
+     m_exec_modes := m_exec_modes m; m_debug_string_source := m_debug_string_source m;
+     m_debug_names := m_debug_names m; m_debug_module_processed := m_debug_module_processed m;
+     m_annotations := m_annotations m; m_types_global_values := m_types_global_values m;
+     m_functions := m_functions m ++ fs |}.
+Definition add_params (f : func inst) (ps : list inst) : func inst :=
+  {| f_def := f_def f; f_end := f_end f; f_params := f_params f ++ ps; f_blocks := f_blocks f |}.
+Definition add_blocks (f : func inst) (bs : list (block inst)) : func inst :=
+  {| f_def := f_def f; f_end := f_end f; f_params := f_params f; f_blocks := f_blocks f ++ bs |}.
+Definition add_body (b : block inst) (xs : list inst) : block inst :=
+  {| b_label := b_label b; b_insts := b_insts b ++ xs |}.
+
+Section Reload.
+Variable class_of : inst -> token.
+
+Definition tag (is : list inst) : list (token * inst) := map (fun i => (class_of i, i)) is.
+
+Lemma tag_app a b : tag (a ++ b) = tag a ++ tag b.
+Proof. apply map_app. Qed.
+Lemma map_snd_tag is : map snd (tag is) = is.
+Proof. unfold tag. rewrite map_map. cbn [snd]. apply map_id. Qed.
+Lemma map_fst_tag is : map fst (tag is) = map class_of is.
+Proof. unfold tag. rewrite map_map. reflexivity. Qed.
+
+(** ** shape facts: where an instruction sits determines its class *)
+Definition wc_sec (k : N) (x : inst) : Prop :=
+  class_of x = TModule k \/ (k = 10 /\ (class_of x = TLine \/ class_of x = TVarUndef)).
+Definition body_class (x : inst) : Prop :=
+  class_of x = TLine \/ class_of x = TBlockInst \/ class_of x = TVarUndef.
+Definition wc_open_blk (b : block inst) : Prop :=
+  (exists l, b_label b = Some l /\ class_of l = TLabel) /\ Forall body_class (b_insts b).
+Definition wc_block (b : block inst) : Prop :=
+  exists l body term, b_label b = Some l /\ class_of l = TLabel
+    /\ b_insts b = body ++ [term] /\ Forall body_class body /\ class_of term = TTerminator.
+Definition wc_open_fn (f : func inst) : Prop :=
+  (exists d, f_def f = Some d /\ class_of d = TFunction)
+  /\ Forall (fun p => class_of p = TParameter) (f_params f)
+  /\ Forall wc_block (f_blocks f).
+Definition wc_fn (f : func inst) : Prop :=
+  wc_open_fn f /\ exists e, f_end f = Some e /\ class_of e = TFunctionEnd.
+Definition wc_module (m : module inst) : Prop :=
+  (forall k, k <= 10 -> k <> 3 -> Forall (wc_sec k) (sec_insts m k))
+  /\ Forall (fun x => class_of x = TMemoryModel) (olist (m_memory_model m))
+  /\ Forall wc_fn (m_functions m).
+Definition wc_state (s : lstate) : Prop :=
+  wc_module (l_module s)
+  /\ (forall f, l_function s = Some f -> wc_open_fn f)
+  /\ (forall b, l_block s = Some b -> wc_open_blk b)
+  /\ (l_function s = None -> l_block s = None)
+  /\ l_header s = None.
+
+Lemma Forall_snoc {A} (P : A -> Prop) l x : Forall P l -> P x -> Forall P (l ++ [x]).
+Proof. intros H1 H2. apply Forall_app. split; [exact H1|]. constructor; [exact H2|constructor]. Qed.
+
+Lemma wc_step s i s1 : wc_state s -> step s (class_of i) i s1 -> wc_state s1.
+Proof.
+  intros ((Wsec & Wmm & Wfns) & Wf & Wb & Wfb & Wh) H.
+  remember (class_of i) as t eqn:Et.
+  destruct H as [m h fo bo t k i m' Ht Hp| m h fo bo i | m h fo b t i Ht | m h bo i | m h f i | m h f bo i | m h f i | m h f b i];
+    unfold wc_state, wc_module; cbn [l_function l_block l_module l_header] in *.
+  - pose proof (push_section_spec _ _ _ _ Hp) as (Hk10 & Hk3 & Hsk & Hsj & Hfns & Hmmk).
+    assert (Hw : wc_sec k i).
+    { unfold wc_sec. rewrite <- Et. destruct Ht as [->|[(-> & _ & ->)|(-> & _ & ->)]]; tauto. }
+    split; [split; [|split]|tauto].
+    + intros j Hj Hj3. destruct (N.eq_dec j k) as [->|Hne].
+      * rewrite Hsk. apply Forall_snoc; auto.
+      * rewrite Hsj by exact Hne. auto.
+    + rewrite Hmmk. exact Wmm.
+    + rewrite Hfns. exact Wfns.
+  - split; [split; [|split]|tauto].
+    + intros j Hj Hj3. rewrite sec_insts_set_mm. destruct (N.eqb j 3) eqn:E; [lia|auto].
+    + cbn. constructor; [congruence|constructor].
+    + exact Wfns.
+  - split; [split; [|split]; assumption|]. split; [assumption|]. split; [|split; [intros ->; discriminate (Wfb eq_refl)|assumption]].
+    intros b0 Hb0. injection Hb0 as <-. destruct (Wb b eq_refl) as (Wl & Wi). split; [exact Wl|].
+    cbn [blk_push b_insts]. apply Forall_snoc; [exact Wi|].
+    unfold body_class. rewrite <- Et. destruct Ht as [->|[->|(-> & _)]]; tauto.
+  - split; [split; [|split]; assumption|]. split; [|split; [assumption|split; [discriminate|assumption]]].
+    intros f Hf. injection Hf as <-. split; [exists i; split; [reflexivity|congruence]|]. split; constructor.
+  - destruct (Wf f eq_refl) as (Wd & Wp & Wbs).
+    split; [split; [|split]|]; [| |cbn; apply Forall_snoc|split; [discriminate|split; [discriminate|split; [reflexivity|assumption]]]]; try assumption.
+    + intros j Hj Hj3. destruct (sec_upd_fn m (fn_close f i)) as (_ & Hsj). rewrite Hsj by lia. auto.
+    + split; [split; [|split]; assumption|]. exists i. split; [reflexivity|congruence].
+  - destruct (Wf f eq_refl) as (Wd & Wp & Wbs).
+    split; [split; [|split]; assumption|]. split; [|split; [assumption|split; [discriminate|assumption]]].
+    intros f0 Hf0. injection Hf0 as <-. split; [exact Wd|]. split; [|exact Wbs].
+    cbn. apply Forall_snoc; [exact Wp|congruence].
+  - split; [split; [|split]; assumption|]. split; [assumption|]. split; [|split; [discriminate|assumption]].
+    intros b Hb. injection Hb as <-. split; [exists i; split; [reflexivity|congruence]|]. constructor.
+  - destruct (Wf f eq_refl) as (Wd & Wp & Wbs). destruct (Wb b eq_refl) as ((l & Hl & Hcl) & Wi).
+    split; [split; [|split]; assumption|]. split; [|split; [discriminate|split; [discriminate|assumption]]].
+    intros f0 Hf0. injection Hf0 as <-. split; [exact Wd|]. split; [exact Wp|].
+    cbn. apply Forall_snoc; [exact Wbs|]. exists l, (b_insts b), i. cbn. repeat split; try assumption. congruence.
+Qed.
+
+Lemma wc_holds is s : spec_feed linit (tag is) = LCont s -> wc_state s.
+Proof.
+  intros H.
+  assert (G : Forall (fun ti => fst ti = class_of (snd ti)) (tag is) -> wc_state s).
+  { revert H. apply (feed_invariant (fun s fed => Forall (fun ti => fst ti = class_of (snd ti)) fed -> wc_state s)).
+    - intros _. split; [split; [|split]|].
+      + intros k _ _. destruct_N k; constructor.
+      + constructor.
+      + constructor.
+      + split; [discriminate|]. split; [discriminate|]. split; reflexivity.
+    - intros s0 fed t i s1 I0 Hstep Hall. apply Forall_app in Hall as (Hall & Hlast).
+      inversion Hlast as [|? ? Ht _]; subst. cbn [fst snd] in Ht. subst t.
+      apply (wc_step s0 i s1); auto. }
+  apply G. unfold tag. apply Forall_forall. intros ti Hti. apply in_map_iff in Hti.
+  destruct Hti as (x & <- & _). reflexivity.
+Qed.
+
+(** ** replay: feeding the traversal of a well-classified module *)
+Lemma feed_sec xs : forall m h k rest,
+  k <= 10 -> k <> 3 -> Forall (wc_sec k) xs ->
+  spec_feed (mk m h None None) (tag xs ++ rest) = spec_feed (mk (app_section m k xs) h None None) rest.
+Proof.
+  induction xs as [|x xs IH]; intros m h k rest Hk Hk3 Hall.
+  - cbn [tag map app]. replace (app_section m k []) with m; [reflexivity|].
+    destruct m as [c e im mm ep em ds dn dp an tg fs0]; destruct_N k; cbn [app_section]; mfields; rewrite ?app_nil_r; reflexivity.
+  - inversion Hall as [|? ? Hx Hxs]; subst. cbn [tag map app spec_feed].
+    rewrite (step_consume _ _ _ (mk (app_section m k [x]) h None None)).
+    + fold (tag xs). rewrite (IH _ _ k rest Hk Hk3 Hxs), app_section_app. reflexivity.
+    + apply (S_push m h None None (class_of x) k x); [|apply push_app_section; assumption].
+      unfold push_tok. destruct Hx as [Hx|(-> & [Hx|Hx])]; tauto.
+Qed.
+
+Lemma feed_mm mm m h rest :
+  Forall (fun x => class_of x = TMemoryModel) (olist mm) ->
+  spec_feed (mk m h None None) (tag (olist mm) ++ rest)
+  = spec_feed (mk (match mm with Some i => set_memory_model m i | None => m end) h None None) rest.
+Proof.
+  intros H. destruct mm as [i|]; [|reflexivity].
+  inversion H as [|? ? Hi _]; subst. cbn [olist tag map app spec_feed]. rewrite Hi.
+  rewrite (step_consume _ _ _ _ (S_mm m h None None i)). reflexivity.
+Qed.
+
+Lemma feed_params ps : forall f m h rest,
+  Forall (fun p => class_of p = TParameter) ps ->
+  spec_feed (mk m h (Some f) None) (tag ps ++ rest) = spec_feed (mk m h (Some (add_params f ps)) None) rest.
+Proof.
+  induction ps as [|x ps IH]; intros f m h rest Hall.
+  - cbn [tag map app]. replace (add_params f []) with f; [reflexivity|].
+    destruct f as [fd fe fp fb]; unfold add_params; cbn [f_def f_end f_params f_blocks]; rewrite app_nil_r; reflexivity.
+  - inversion Hall as [|? ? Hx Hxs]; subst. cbn [tag map app spec_feed]. rewrite Hx.
+    rewrite (step_consume _ _ _ _ (S_param m h f None x)). fold (tag ps). rewrite (IH _ _ _ rest Hxs).
+    unfold add_params, fn_param; cbn [f_def f_end f_params f_blocks]. rewrite <- app_assoc. reflexivity.
+Qed.
+
+Lemma feed_body body : forall b f m h rest,
+  Forall body_class body ->
+  spec_feed (mk m h (Some f) (Some b)) (tag body ++ rest) = spec_feed (mk m h (Some f) (Some (add_body b body))) rest.
+Proof.
+  induction body as [|x body IH]; intros b f m h rest Hall.
+  - cbn [tag map app]. replace (add_body b []) with b; [reflexivity|].
+    destruct b as [bl bi]; unfold add_body; cbn [b_label b_insts]; rewrite app_nil_r; reflexivity.
+  - inversion Hall as [|? ? Hx Hxs]; subst. cbn [tag map app spec_feed].
+    rewrite (step_consume _ _ _ (mk m h (Some f) (Some (blk_push b x)))).
+    + fold (tag body). rewrite (IH _ _ _ _ rest Hxs).
+      unfold add_body, blk_push; cbn [b_label b_insts]. rewrite <- app_assoc. reflexivity.
+    + apply S_blk. unfold blk_tok. destruct Hx as [Hx|[Hx|Hx]]; rewrite Hx; [tauto|tauto|].
+      right; right. split; [reflexivity|discriminate].
+Qed.
+
+Lemma feed_block b f m h rest :
+  wc_block b ->
+  spec_feed (mk m h (Some f) None) (tag (block_insts b) ++ rest) = spec_feed (mk m h (Some (fn_block f b)) None) rest.
+Proof.
+  intros (l & body & term & Hl & Hcl & Hi & Hbody & Hterm).
+  destruct b as [lb ib]; cbn [b_label b_insts] in *; subst lb ib.
+  unfold block_insts; cbn [b_label b_insts olist app].
+  change (tag (l :: body ++ [term])) with ((class_of l, l) :: tag (body ++ [term])).
+  rewrite tag_app. cbn [app spec_feed]. rewrite Hcl.
+  rewrite (step_consume _ _ _ _ (S_openblk m h f l)).
+  rewrite <- app_assoc. rewrite (feed_body body _ _ _ _ _ Hbody).
+  change (tag [term]) with [(class_of term, term)].
+  cbn [app spec_feed]. rewrite Hterm.
+  rewrite (step_consume _ _ _ _ (S_closeblk m h f _ term)). reflexivity.
+Qed.
+
+Lemma feed_blocks bs : forall f m h rest,
+  Forall wc_block bs ->
+  spec_feed (mk m h (Some f) None) (tag (flat_map block_insts bs) ++ rest)
+  = spec_feed (mk m h (Some (add_blocks f bs)) None) rest.
+Proof.
+  induction bs as [|b bs IH]; intros f m h rest Hall.
+  - cbn [flat_map tag map app]. replace (add_blocks f []) with f; [reflexivity|].
+    destruct f as [fd fe fp fb]; unfold add_blocks; cbn [f_def f_end f_params f_blocks]; rewrite app_nil_r; reflexivity.
+  - inversion Hall as [|? ? Hb Hbs]; subst. cbn [flat_map]. rewrite tag_app, <- app_assoc.
+    rewrite (feed_block _ _ _ _ _ Hb), (IH _ _ _ rest Hbs).
+    unfold add_blocks, fn_block; cbn [f_def f_end f_params f_blocks]. rewrite <- app_assoc. reflexivity.
+Qed.
+
+Lemma feed_func f m h rest :
+  wc_fn f ->
+  spec_feed (mk m h None None) (tag (func_insts f) ++ rest) = spec_feed (mk (push_function m f) h None None) rest.
+Proof.
+  intros (((d & Hd & Hcd) & Hps & Hbs) & (e & He & Hce)).
+  destruct f as [fd fe ps bs]; cbn [f_def f_end f_params f_blocks] in *; subst fd fe.
+  unfold func_insts; cbn [f_def f_end f_params f_blocks olist app].
+  change (tag (d :: ps ++ flat_map block_insts bs ++ [e])) with ((class_of d, d) :: tag (ps ++ flat_map block_insts bs ++ [e])).
+  cbn [app spec_feed]. rewrite Hcd.
+  rewrite (step_consume _ _ _ _ (S_openfn m h None d)).
+  rewrite tag_app, <- app_assoc. rewrite (feed_params ps _ _ _ _ Hps).
+  rewrite tag_app, <- app_assoc. rewrite (feed_blocks bs _ _ _ _ Hbs).
+  change (tag [e]) with [(class_of e, e)].
+  cbn [app spec_feed]. rewrite Hce.
+  rewrite (step_consume _ _ _ _ (S_closefn m h _ e)). reflexivity.
+Qed.
+
+Lemma feed_funcs fs : forall m h rest,
+  Forall wc_fn fs ->
+  spec_feed (mk m h None None) (tag (flat_map func_insts fs) ++ rest)
+  = spec_feed (mk (add_fns m fs) h None None) rest.
+Proof.
+  induction fs as [|f fs IH]; intros m h rest Hall.
+  - cbn [flat_map tag map app]. replace (add_fns m []) with m; [reflexivity|].
+    destruct m as [c e im mm ep em ds dn dp an tg fs0]; unfold add_fns; mfields; rewrite app_nil_r; reflexivity.
+  - inversion Hall as [|? ? Hf Hfs]; subst. cbn [flat_map]. rewrite tag_app, <- app_assoc.
+    rewrite (feed_func _ _ _ _ Hf), (IH _ _ rest Hfs).
+    unfold add_fns, push_function; mfields. rewrite <- app_assoc. reflexivity.
+Qed.
+
+(** feeding the traversal of a well-classified module rebuilds it *)
+Lemma replay m : wc_module m -> spec_feed linit (tag (all_insts m)) = LCont (mk m None None None).
+Proof.
+  intros (Wsec & Wmm & Wfns).
+  pose proof (Wsec 0 ltac:(lia) ltac:(lia)) as W0. pose proof (Wsec 1 ltac:(lia) ltac:(lia)) as W1.
+  pose proof (Wsec 2 ltac:(lia) ltac:(lia)) as W2. pose proof (Wsec 4 ltac:(lia) ltac:(lia)) as W4.
+  pose proof (Wsec 5 ltac:(lia) ltac:(lia)) as W5. pose proof (Wsec 6 ltac:(lia) ltac:(lia)) as W6.
+  pose proof (Wsec 7 ltac:(lia) ltac:(lia)) as W7. pose proof (Wsec 8 ltac:(lia) ltac:(lia)) as W8.
+  pose proof (Wsec 9 ltac:(lia) ltac:(lia)) as W9. pose proof (Wsec 10 ltac:(lia) ltac:(lia)) as W10.
+  clear Wsec. destruct m as [c e im mm ep em ds dn dp an tg fs]. cbn [sec_insts] in *. mfields_all.
+  unfold all_insts, linit; mfields. rewrite !tag_app.
+  rewrite (feed_sec c _ _ 0 _ ltac:(lia) ltac:(lia) W0).
+  rewrite (feed_sec e _ _ 1 _ ltac:(lia) ltac:(lia) W1).
+  rewrite (feed_sec im _ _ 2 _ ltac:(lia) ltac:(lia) W2).
+  rewrite (feed_mm mm _ _ _ Wmm).
+  rewrite (feed_sec ep _ _ 4 _ ltac:(lia) ltac:(lia) W4).
+  rewrite (feed_sec em _ _ 5 _ ltac:(lia) ltac:(lia) W5).
+  rewrite (feed_sec ds _ _ 6 _ ltac:(lia) ltac:(lia) W6).
+  rewrite (feed_sec dn _ _ 7 _ ltac:(lia) ltac:(lia) W7).
+  rewrite (feed_sec dp _ _ 8 _ ltac:(lia) ltac:(lia) W8).
+  rewrite (feed_sec an _ _ 9 _ ltac:(lia) ltac:(lia) W9).
+  rewrite (feed_sec tg _ _ 10 _ ltac:(lia) ltac:(lia) W10).
+  rewrite <- (app_nil_r (tag (flat_map func_insts fs))).
+  rewrite (feed_funcs fs _ _ [] Wfns). cbn [spec_feed].
+  destruct mm; reflexivity.
+Qed.
+
+(** A4 *)
+Theorem reload_idempotent is s :
+  spec_load (tag is) = LCont s ->
+  spec_load (tag (all_insts (l_module s))) = LCont s.
+Proof.
+  intros H. apply spec_load_feed in H. destruct H as (H & Hf & Hb).
+  destruct (wc_holds _ _ H) as (Wm & _ & _ & _ & Wh).
+  unfold spec_load. rewrite (replay _ Wm).
+  destruct s as [m h fo bo]; cbn [l_module l_header l_function l_block] in *; subst. reflexivity.
+Qed.
+
+Corollary reload_idempotent_module is s :
+  spec_load (tag is) = LCont s ->
+  exists s', spec_load (tag (all_insts (l_module s))) = LCont s' /\ l_module s' = l_module s.
+Proof. intros H. exists s. split; [apply (reload_idempotent is); exact H|reflexivity]. Qed.
+
+(** ** the traversal of a well-classified module is layout-ordered *)
+Definition lo_state := (bool * bool * bool * N)%type.
+Definition lo_step (st : lo_state) (t : token) : option lo_state :=
+  let '(fn, blk, lbl, r) := st in
+  if (r <=? rank fn t) && negb (is_line t && fn && negb blk) && negb (is_param t && lbl)
+  then Some (fn_after fn t, blk_after blk t, lbl_after lbl t, rank fn t) else None.
+Fixpoint lo_scan (st : lo_state) (ts : list token) : option lo_state :=
+  match ts with
+  | [] => Some st
+  | t :: r => match lo_step st t with Some st1 => lo_scan st1 r | None => None end
+  end.
+
+Lemma lo_scan_app st a b :
+  lo_scan st (a ++ b) = match lo_scan st a with Some st1 => lo_scan st1 b | None => None end.
+Proof.
+  revert st. induction a as [|t a IH]; intros st; cbn [app lo_scan]; [reflexivity|].
+  destruct (lo_step st t); [apply IH|reflexivity].
+Qed.
+
+Lemma lo_scan_sound ts : forall fn blk lbl r st',
+  lo_scan (fn, blk, lbl, r) ts = Some st' ->
+  nondecreasing (r :: ranks fn ts) /\ no_stray_line fn blk ts = true /\ params_first lbl ts = true.
+Proof.
+  induction ts as [|t ts IH]; intros fn blk lbl r st' H.
+  - cbn. auto.
+  - cbn [lo_scan lo_step] in H.
+    destruct ((r <=? rank fn t) && negb (is_line t && fn && negb blk) && negb (is_param t && lbl)) eqn:E;
+      [|discriminate H].
+    apply andb_prop in E as (E & E3). apply andb_prop in E as (E1 & E2). apply N.leb_le in E1.
+    destruct (IH _ _ _ _ _ H) as (I1 & I2 & I3).
+    cbn [ranks no_stray_line params_first]. rewrite E2, E3, I2, I3.
+    split; [|split; reflexivity].
+    change (r <= rank fn t /\ nondecreasing (rank fn t :: ranks (fn_after fn t) ts)). split; assumption.
+Qed.
+
+Lemma lo_step_eq fn blk lbl r t :
+  r <= rank fn t -> negb (is_line t && fn && negb blk) = true -> negb (is_param t && lbl) = true ->
+  lo_step (fn, blk, lbl, r) t = Some (fn_after fn t, blk_after blk t, lbl_after lbl t, rank fn t).
+Proof.
+  intros H1 H2 H3. unfold lo_step. apply N.leb_le in H1. rewrite H1, H2, H3. reflexivity.
+Qed.
+
+Lemma scan_sec xs : forall lbl r k,
+  Forall (wc_sec k) xs -> r <= k ->
+  exists r', r <= r' /\ r' <= k /\ lo_scan (false, false, lbl, r) (map class_of xs) = Some (false, false, lbl, r').
+Proof.
+  induction xs as [|x xs IH]; intros lbl r k Hall Hr.
+  - exists r. cbn. repeat split; lia.
+  - inversion Hall as [|? ? Hx Hxs]; subst. cbn [map lo_scan].
+    assert (E : lo_step (false, false, lbl, r) (class_of x) = Some (false, false, lbl, k)).
+    { destruct Hx as [Hx|(-> & [Hx|Hx])]; rewrite Hx; apply lo_step_eq; cbn; try reflexivity; lia. }
+    rewrite E. destruct (IH lbl k k Hxs ltac:(lia)) as (r' & H1 & H2 & H3).
+    exists r'. repeat split; try lia. exact H3.
+Qed.
+
+Lemma scan_mm mm lbl r :
+  Forall (fun x => class_of x = TMemoryModel) (olist mm) -> r <= 3 ->
+  exists r', r <= r' /\ r' <= 3 /\ lo_scan (false, false, lbl, r) (map class_of (olist mm)) = Some (false, false, lbl, r').
+Proof.
+  intros H Hr. destruct mm as [i|].
+  - inversion H as [|? ? Hi _]; subst. exists 3. cbn [olist map lo_scan]. rewrite Hi.
+    rewrite lo_step_eq; cbn; try reflexivity; try lia. repeat split; lia.
+  - exists r. cbn. repeat split; lia.
+Qed.
+
+Lemma scan_params ps :
+  Forall (fun p => class_of p = TParameter) ps ->
+  lo_scan (true, false, false, 11) (map class_of ps) = Some (true, false, false, 11).
+Proof.
+  induction ps as [|x ps IH]; intros Hall; [reflexivity|].
+  inversion Hall as [|? ? Hx Hxs]; subst. cbn [map lo_scan]. rewrite Hx.
+  rewrite lo_step_eq; cbn; try reflexivity; try lia. apply IH. exact Hxs.
+Qed.
+
+Lemma scan_body body :
+  Forall body_class body ->
+  lo_scan (true, true, true, 11) (map class_of body) = Some (true, true, true, 11).
+Proof.
+  induction body as [|x body IH]; intros Hall; [reflexivity|].
+  inversion Hall as [|? ? Hx Hxs]; subst. cbn [map lo_scan].
+  assert (E : lo_step (true, true, true, 11) (class_of x) = Some (true, true, true, 11)).
+  { destruct Hx as [Hx|[Hx|Hx]]; rewrite Hx; apply lo_step_eq; cbn; try reflexivity; lia. }
+  rewrite E. apply IH. exact Hxs.
+Qed.
+
+Lemma scan_block b lbl :
+  wc_block b ->
+  lo_scan (true, false, lbl, 11) (map class_of (block_insts b)) = Some (true, false, true, 11).
+Proof.
+  intros (l & body & term & Hl & Hcl & Hi & Hbody & Hterm).
+  unfold block_insts. rewrite Hl, Hi. cbn [olist app map lo_scan]. rewrite Hcl.
+  rewrite lo_step_eq; cbn [rank fn_after blk_after lbl_after is_line is_param andb negb]; try reflexivity; try lia.
+  rewrite map_app, lo_scan_app, (scan_body _ Hbody). cbn [map lo_scan]. rewrite Hterm.
+  rewrite lo_step_eq; cbn; try reflexivity; lia.
+Qed.
+
+Lemma scan_blocks bs : forall lbl,
+  Forall wc_block bs ->
+  exists lbl', lo_scan (true, false, lbl, 11) (map class_of (flat_map block_insts bs)) = Some (true, false, lbl', 11).
+Proof.
+  induction bs as [|b bs IH]; intros lbl Hall.
+  - exists lbl. reflexivity.
+  - inversion Hall as [|? ? Hb Hbs]; subst. cbn [flat_map]. rewrite map_app, lo_scan_app, (scan_block _ _ Hb).
+    apply IH. exact Hbs.
+Qed.
+
+Lemma scan_func f lbl r :
+  wc_fn f -> r <= 11 ->
+  exists lbl', lo_scan (false, false, lbl, r) (map class_of (func_insts f)) = Some (false, false, lbl', 11).
+Proof.
+  intros (((d & Hd & Hcd) & Hps & Hbs) & (e & He & Hce)) Hr.
+  unfold func_insts. rewrite Hd, He. cbn [olist app map lo_scan]. rewrite Hcd.
+  rewrite lo_step_eq; cbn [rank fn_after blk_after lbl_after is_line is_param andb negb]; try reflexivity; try lia.
+  rewrite map_app, lo_scan_app, (scan_params _ Hps).
+  rewrite map_app, lo_scan_app. destruct (scan_blocks _ false Hbs) as (lbl' & E). rewrite E.
+  exists lbl'. cbn [map lo_scan]. rewrite Hce.
+  rewrite lo_step_eq; cbn; try reflexivity; lia.
+Qed.
+
+Lemma scan_funcs fs : forall lbl r,
+  Forall wc_fn fs -> r <= 11 ->
+  exists lbl' r', lo_scan (false, false, lbl, r) (map class_of (flat_map func_insts fs)) = Some (false, false, lbl', r').
+Proof.
+  induction fs as [|f fs IH]; intros lbl r Hall Hr.
+  - exists lbl, r. reflexivity.
+  - inversion Hall as [|? ? Hf Hfs]; subst. cbn [flat_map]. rewrite map_app, lo_scan_app.
+    destruct (scan_func _ lbl r Hf Hr) as (lbl' & E). rewrite E. apply IH; [exact Hfs|lia].
+Qed.
+
+Lemma mm_count_sec xs k : Forall (wc_sec k) xs -> mm_count (map class_of xs) = 0%nat.
+Proof.
+  induction 1 as [|x xs Hx _ IH]; [reflexivity|]. cbn [map]. rewrite mm_count_cons, IH.
+  destruct Hx as [Hx|(_ & [Hx|Hx])]; rewrite Hx; reflexivity.
+Qed.
+
+Lemma mm_count_none xs : Forall (fun x => class_of x <> TMemoryModel) xs -> mm_count (map class_of xs) = 0%nat.
+Proof.
+  induction 1 as [|x xs Hx _ IH]; [reflexivity|]. cbn [map]. rewrite mm_count_cons, IH.
+  destruct (class_of x); try reflexivity. congruence.
+Qed.
+
+Lemma wc_block_no_mm b : wc_block b -> Forall (fun x => class_of x <> TMemoryModel) (block_insts b).
+Proof.
+  intros (l & body & term & Hl & Hcl & Hi & Hbody & Hterm). unfold block_insts. rewrite Hl, Hi.
+  cbn [olist app]. constructor; [congruence|]. apply Forall_app. split.
+  - eapply Forall_impl; [|exact Hbody]. intros x [Hx|[Hx|Hx]]; congruence.
+  - constructor; [congruence|constructor].
+Qed.
+
+Lemma Forall_flat_map {A B} (P : B -> Prop) (g : A -> list B) l :
+  (forall x, In x l -> Forall P (g x)) -> Forall P (flat_map g l).
+Proof.
+  induction l as [|a r IH]; intros H; cbn [flat_map]; [constructor|].
+  apply Forall_app. split; [apply H; left; reflexivity|apply IH; intros x Hx; apply H; right; exact Hx].
+Qed.
+
+Lemma wc_fn_no_mm f : wc_fn f -> Forall (fun x => class_of x <> TMemoryModel) (func_insts f).
+Proof.
+  intros (((d & Hd & Hcd) & Hps & Hbs) & (e & He & Hce)). unfold func_insts. rewrite Hd, He.
+  cbn [olist app]. constructor; [congruence|]. apply Forall_app. split.
+  - eapply Forall_impl; [|exact Hps]. intros x Hx; cbn in Hx; congruence.
+  - apply Forall_app. split; [|constructor; [congruence|constructor]].
+    apply Forall_flat_map. intros b Hb. apply wc_block_no_mm. rewrite Forall_forall in Hbs. auto.
+Qed.
+
+Lemma nondecreasing_tail a l : nondecreasing (a :: l) -> nondecreasing l.
+Proof. destruct l as [|b l]; [intros _; exact I|]. intros [_ H]. exact H. Qed.
+
+Theorem traversal_layout_ordered m : wc_module m -> layout_ordered (map class_of (all_insts m)).
+Proof.
+  intros (Wsec & Wmm & Wfns).
+  pose proof (Wsec 0 ltac:(lia) ltac:(lia)) as W0. pose proof (Wsec 1 ltac:(lia) ltac:(lia)) as W1.
+  pose proof (Wsec 2 ltac:(lia) ltac:(lia)) as W2. pose proof (Wsec 4 ltac:(lia) ltac:(lia)) as W4.
+  pose proof (Wsec 5 ltac:(lia) ltac:(lia)) as W5. pose proof (Wsec 6 ltac:(lia) ltac:(lia)) as W6.
+  pose proof (Wsec 7 ltac:(lia) ltac:(lia)) as W7. pose proof (Wsec 8 ltac:(lia) ltac:(lia)) as W8.
+  pose proof (Wsec 9 ltac:(lia) ltac:(lia)) as W9. pose proof (Wsec 10 ltac:(lia) ltac:(lia)) as W10.
+  clear Wsec. destruct m as [c e im mm ep em ds dn dp an tg fs]. cbn [sec_insts] in *. mfields_all.
+  unfold all_insts; mfields.
+  assert (S : exists st, lo_scan (false, false, false, 0)
+      (map class_of (c ++ e ++ im ++ olist mm ++ ep ++ em ++ ds ++ dn ++ dp ++ an ++ tg ++ flat_map func_insts fs)) = Some st).
+  { rewrite !map_app.
+    rewrite lo_scan_app; destruct (scan_sec c false 0 0 W0 ltac:(lia)) as (r0 & ? & ? & ->); cbv beta iota.
+    rewrite lo_scan_app; destruct (scan_sec e false r0 1 W1 ltac:(lia)) as (r1 & ? & ? & ->); cbv beta iota.
+    rewrite lo_scan_app; destruct (scan_sec im false r1 2 W2 ltac:(lia)) as (r2 & ? & ? & ->); cbv beta iota.
+    rewrite lo_scan_app; destruct (scan_mm mm false r2 Wmm ltac:(lia)) as (r3 & ? & ? & ->); cbv beta iota.
+    rewrite lo_scan_app; destruct (scan_sec ep false r3 4 W4 ltac:(lia)) as (r4 & ? & ? & ->); cbv beta iota.
+    rewrite lo_scan_app; destruct (scan_sec em false r4 5 W5 ltac:(lia)) as (r5 & ? & ? & ->); cbv beta iota.
+    rewrite lo_scan_app; destruct (scan_sec ds false r5 6 W6 ltac:(lia)) as (r6 & ? & ? & ->); cbv beta iota.
+    rewrite lo_scan_app; destruct (scan_sec dn false r6 7 W7 ltac:(lia)) as (r7 & ? & ? & ->); cbv beta iota.
+    rewrite lo_scan_app; destruct (scan_sec dp false r7 8 W8 ltac:(lia)) as (r8 & ? & ? & ->); cbv beta iota.
+    rewrite lo_scan_app; destruct (scan_sec an false r8 9 W9 ltac:(lia)) as (r9 & ? & ? & ->); cbv beta iota.
+    rewrite lo_scan_app; destruct (scan_sec tg false r9 10 W10 ltac:(lia)) as (r10 & ? & ? & ->); cbv beta iota.
+    destruct (scan_funcs fs false r10 Wfns ltac:(lia)) as (lbl' & r11 & ->); cbv beta iota.
+    eexists. reflexivity. }
+  destruct S as (st & S). apply lo_scan_sound in S. destruct S as (S1 & S2 & S3).
+  split; [eapply nondecreasing_tail; exact S1|]. split; [exact S2|]. split; [|exact S3].
+  unfold at_most_one_mm. rewrite !map_app, !mm_count_app.
+  rewrite (mm_count_sec _ _ W0), (mm_count_sec _ _ W1), (mm_count_sec _ _ W2), (mm_count_sec _ _ W4),
+    (mm_count_sec _ _ W5), (mm_count_sec _ _ W6), (mm_count_sec _ _ W7), (mm_count_sec _ _ W8),
+    (mm_count_sec _ _ W9), (mm_count_sec _ _ W10).
+  rewrite (mm_count_none (flat_map func_insts fs)).
+  - destruct mm; cbn; [destruct (is_mm (class_of i))|]; cbn; lia.
+  - apply Forall_flat_map. intros f Hf. apply wc_fn_no_mm. rewrite Forall_forall in Wfns. auto.
+Qed.
+
+(** the traversal of every successfully loaded module is layout-ordered, hence
+    (A3) reproduced as is by the second load - which is also what
+    [reload_idempotent] says *)
+Corollary loaded_traversal_layout_ordered is s :
+  spec_load (tag is) = LCont s -> layout_ordered (map fst (tag (all_insts (l_module s)))).
+Proof.
+  intros H. apply spec_load_feed in H. destruct H as (H & _ & _).
+  destruct (wc_holds _ _ H) as (Wm & _). rewrite map_fst_tag. apply traversal_layout_ordered. exact Wm.
+Qed.
+End Reload.
+
+(** why [rank] gives a TModule / TMemoryModel token its own section rank even
+    between TFunction and TFunctionEnd: such an instruction is accepted there
+    and filed in its global section, i.e. hoisted out of the function; with
+    rank 11 for it the identity would be false *)
+Example module_token_inside_function_is_hoisted :
+  let tis := [(TFunction, ex_inst 54 1); (TModule 0, ex_inst 17 2); (TFunctionEnd, ex_inst 56 3)] in
+  exists s, spec_load tis = LCont s
+    /\ all_insts (l_module s) = [ex_inst 17 2; ex_inst 54 1; ex_inst 56 3]
+    /\ all_insts (l_module s) <> map snd tis
+    /\ ranks false (map fst tis) = [11; 0; 11]
+    /\ no_stray_line false false (map fst tis) = true /\ at_most_one_mm (map fst tis)
+    /\ params_first false (map fst tis) = true.
+Proof.
+  eexists. split; [vm_compute; reflexivity|]. split; [reflexivity|]. split; [intros H; discriminate H|].
+  split; [reflexivity|]. split; [reflexivity|]. split; [vm_compute; lia|reflexivity].
+Qed.
+
+Print Assumptions all_insts_is_traversal.
+Print Assumptions two_memory_models_not_a_permutation.
+Print Assumptions module_token_inside_function_is_hoisted.
+Print Assumptions assemble_module_is_all_insts.
+Print Assumptions assemble_body_is_all_insts.
+Print Assumptions consume_step.
+Print Assumptions step_consume.
+Print Assumptions feed_nothing_dropped_or_invented.
+Print Assumptions nothing_dropped_or_invented.
+Print Assumptions two_memory_models_lose_the_first.
+Print Assumptions relative_order_preserved.
+Print Assumptions sections_are_subsequences.
+Print Assumptions feed_layout_ordered_identity.
+Print Assumptions layout_ordered_identity.
+Print Assumptions ranks_necessary.
+Print Assumptions no_stray_line_necessary.
+Print Assumptions one_memory_model_necessary.
+Print Assumptions params_first_necessary.
+Print Assumptions reload_idempotent.
+Print Assumptions reload_idempotent_module.
+Print Assumptions traversal_layout_ordered.
+Print Assumptions loaded_traversal_layout_ordered.
